@@ -141,7 +141,7 @@ fn run_meta(prop: &str, tier: &str, rule: &str, extra_bound: usize, which: u8) -
     for sp in corpus::spaces(if tier == "quick" { "quick" } else { "mid" }) {
         let name = format!("{}/{}", if which == 12 { "shortcuts" } else { "spellings" }, sp.name);
         // the every-name spaces are large: one deviation less for the (wider) respelling product in the quick tier
-        let bound = if tier == "quick" && ((which == 13 && sp.name.starts_with("names-")) || (which == 12 && (sp.name == "faulty" || sp.name == "names-parent"))) { sp.bound.map(|b| b.saturating_sub(1)) } else { sp.bound };
+        let bound = if tier == "quick" && ((which == 13 && (sp.name.starts_with("names-") || sp.name == "faulty")) || (which == 12 && (sp.name == "faulty" || sp.name == "names-parent"))) { sp.bound.map(|b| b.saturating_sub(1)) } else { sp.bound };
         // (the thorough tier deepens the corpus, not the rewrite product: mid corpus x rewrite-dev(3) did not finish in 25 min)
         let bound2 = Some(extra_bound);
         let st = explore2(
